@@ -477,6 +477,9 @@ macro_rules! all_for_elem {
         vector_drivers!($acc, $rng, $T, $tname, Const<6>, 6, "S6");
         let nd = $rng.below(7);
         vector_drivers!($acc, $rng, $T, $tname, Dyn, nd, &format!("D{}", nd));
+        // beyond the 0..6 of the property: size-dependent paths (unrolled / blocked variants) change
+        let nd = 7 + $rng.below(10);
+        vector_drivers!($acc, $rng, $T, $tname, Dyn, nd, "D7-16");
         jacobian_case!($acc, $rng, $T, $tname, Const<2>, 2, Const<0>, 0, "S2x0");
         jacobian_case!($acc, $rng, $T, $tname, Const<1>, 1, Const<1>, 1, "S1x1");
         jacobian_case!($acc, $rng, $T, $tname, Const<2>, 2, Const<3>, 3, "S2x3");
